@@ -160,7 +160,12 @@ func (s c16Spec) Argv(r *Rng) []string {
 		add("since", val("since", s.SinceTxt))
 	}
 	if s.HasStep {
-		argv = append(argv, "--step="+val("step", s.StepTxt))
+		if sv := val("step", s.StepTxt); strings.HasPrefix(sv, "-") {
+			// a negative value must be attached, or it would read as another flag
+			argv = append(argv, "--step="+sv)
+		} else {
+			add("step", sv)
+		}
 	}
 	return append(argv, "{}")
 }
